@@ -202,7 +202,8 @@ DOCS = ['<root><a/>tail</root>',
         '<r><a>one<b>two</b>three</a><c/>four<d>five<e/>six</d></r>',
         '<root><a>sch\u00f6n<b/><c/></a><d/>t</root>',
         '<root><a/><b/><c/></root>',
-        '<root><first xml:space="bogus"/><wrap><c/></wrap><last/></root>']
+        '<root><first xml:space="bogus"/><wrap><c/></wrap><last/></root>',
+        '<r>a<!--c-->d<?p q?>e<b/></r>']
 WARNING_DOC = 5       # its serialization emits a UserWarning (invalid xml:space): a hook the program may hang a callback on
 PRETTY = impl.FormatOptions(align_attributes=False, indentation="  ", width=0)
 WRAPPED = impl.FormatOptions(align_attributes=False, indentation=" ", width=20)
@@ -242,6 +243,51 @@ def gen_program(rng, n_ops):
         prog["ops"].insert(rng.randrange(len(prog["ops"]) + 1), {"op": "set_content", "h": rng.randrange(64), "keep": False,
                                                                  "k": 0, "txt": ""})
     return prog
+
+
+def _op(op, h=0, keep=False, k=0, txt="X"):
+    return {"op": op, "h": h, "keep": keep, "k": k, "txt": txt}
+
+
+def _prog(doc, paths, ops, hold_doc=False, aliases=0, n_filter=1):
+    return {"doc": doc, "hold_doc": hold_doc, "hold_root": False, "initial": [], "initial_paths": paths, "ops": ops,
+            "doc_aliases": aliases, "n_filter": n_filter, "initial_p": 0.0, "seed": 1}
+
+
+# fixed cases, run on every seed before the generated programs: one per mechanism the property text names
+FIXED_PROGRAMS = [
+    # an uncoalesced chain of text nodes behind a comment / a PI, every reference to them dropped, then collections
+    _prog(6, [[], [1]], [_op("add_following_texts", 1, txt="X"), _op("drop", 1), _op("serialize", 0)], hold_doc=True),
+    _prog(6, [[], [3]], [_op("add_following_texts", 1, txt="foo ", k=1), _op("drop", 1), _op("serialize", 0)]),
+    _prog(6, [[1], [3]], [_op("add_following_texts", 0, txt="X"), _op("add_following_texts", 1, txt="Y"), _op("drop", 0),
+                          _op("nav_parent", 0)]),
+    # an error handled inside a `with _wrapper_cache:` region, the program goes on, then releases everything
+    _prog(3, [[]], [_op("save_ascii", 0), _op("add_following_text", 0), _op("serialize", 0)], hold_doc=True),
+    _prog(3, [[0]], [_op("save_ascii", 0), _op("nav_parent", 0)], hold_doc=True, aliases=1),
+    # a blank placeholder in front of the only chain member the program keeps, refilled after a collection
+    _prog(2, [[0, 0]], [_op("blank_chain", 0), _op("refill_previous", 0), _op("set_content", 0, txt="Y"), _op("serialize", 0)]),
+    _prog(2, [[2]], [_op("blank_chain", 0), _op("refill_previous", 0), _op("set_content", 0, txt="Y")]),
+    # two fresh text nodes, the first ending in whitespace, in front of an element; indenting/wrapping output
+    _prog(3, [[], [0, 1]], [_op("add_following_texts", 1, txt="foo "), _op("drop", 1), _op("serialize", 0)]),
+    _prog(3, [[], [0]], [_op("prepend_texts", 1, txt="foo "), _op("serialize", 0)]),
+    # a run of unreferenced text nodes among the children while a call counts and addresses children (in-filter mode)
+    _prog(4, [[]], [_op("texts_behind_sibling", 0), _op("append_children", 0, txt="p"), _op("serialize", 0)], n_filter=1),
+    _prog(4, [[]], [_op("texts_behind_sibling", 0), _op("append_children", 0, txt="p"), _op("insert_child", 0, k=3)], n_filter=3),
+    _prog(4, [[0]], [_op("texts_behind_sibling", 0), _op("append_to_parent", 0)], n_filter=2),
+    # a document referenced once / twice / three times, its root not held, nothing serialized through the document
+    _prog(0, [[0]], [_op("nav_following_tag", 0), _op("add_following_text", 0), _op("serialize", 0)], hold_doc=True, aliases=0),
+    _prog(0, [[0]], [_op("nav_following_tag", 0), _op("add_following_text", 0), _op("serialize", 0)], hold_doc=True, aliases=1),
+    _prog(0, [[0]], [_op("nav_following_tag", 0), _op("add_following_text", 0), _op("serialize", 0)], hold_doc=True, aliases=2),
+    # a collection from another thread inside a locked serialization, unreferenced text run inside a leaf element
+    _prog(5, [[]], [_op("texts_into_leaf", 0, k=1), _op("serialize", 0)]),
+    _prog(5, [[2]], [_op("texts_into_leaf", 0, k=1), _op("texts_behind_sibling", 0), _op("serialize", 0)], hold_doc=True),
+    # only a chained text node behind an element's tail text is held (not the element, not the tail text)
+    _prog(2, [[2]], [_op("add_following_texts", 0, keep=True), _op("drop", 0), _op("set_content", 0, txt="Y"), _op("serialize", 0)]),
+    _prog(1, [[1, 2]], [_op("add_following_texts", 0, keep=True), _op("drop", 0), _op("add_following_text", 0)]),
+    # only the text of an element is held (no chain), not the element
+    _prog(2, [[0, 0]], [_op("set_content", 0, txt="Y"), _op("add_following_text", 0), _op("serialize", 0)]),
+    _prog(2, [[3, 0]], [_op("nav_parent", 0), _op("add_following_text", 0, keep=True)]),
+]
 
 
 OPS = ["add_following_text", "add_following_text", "add_following_texts", "add_preceding_tag", "append_children",
@@ -372,7 +418,17 @@ def _run_program(prog, mode, rng, baseline, ambient_filter):
             doc = Document(DOCS[prog["doc"]])
             root_el = doc.root._etree_obj
             handles = []
-            with altered_default_filters():
+            if prog.get("initial_paths") is not None:
+                # a fixed case names the nodes the program holds (child indexes without filters)
+                with altered_default_filters():
+                    for path in prog["initial_paths"]:
+                        n = doc.root
+                        for i in path:
+                            n = n[i]
+                        handles.append(n)
+                    n = None
+            else:
+              with altered_default_filters():
                 for n in [doc.root] + list(doc.root.iterate_descendants()):
                     if n is doc.root:
                         if prog["hold_root"]:
@@ -804,7 +860,9 @@ def run(ctx, args):
             return ctx.finish("replay of " + args.replay, level="proof", replay_open=replay_open)
         quick = ctx.tier == "quick"
         part_eviction(ctx, 60 if quick else 1500)
-        for i in range(100 if quick else 1800):
+        for prog in FIXED_PROGRAMS:
+            compare_runs(ctx, prog)
+        for i in range(80 if quick else 1800):
             compare_runs(ctx, gen_program(ctx.rng, ctx.rng.choice([3, 6, 10])))
     finally:
         gc.set_threshold(*state[1])
